@@ -82,6 +82,29 @@ def gen_case(rng):
         # down: workers are told to exit) at the start of a call -- a worker may die right then
         for call in calls:
             call["n_jobs"] = rng.choice([2, 3, 4, 5])
+    if rng.random() < 0.1 and len(calls) >= 2:
+        # focus: the second call needs another executor (other worker environment), the first one is shut down gracefully,
+        # and a worker dies while it is receiving its exit sentinel / waiting for it
+        calls[0]["n_jobs"] = rng.choice([3, 4]); calls[1]["n_jobs"] = 2
+        for call in calls[2:]:
+            call["n_jobs"] = rng.choice([2, 3, 4])
+        kills = [{"call": 1, "when": "during", "kind": rng.choice(["label:receiving_call", "label:idle", "pread", "sem_acq"]),
+                  "nth": rng.choice([1, 1, 2, 3, 4]), "delay": 0.0, "code": -9}]
+    pending_gen = False
+    if rng.random() < 0.08 and len(calls) >= 2:
+        # focus: the first call returns a generator that is not consumed yet when the second call, with another n_jobs
+        # but the same worker environment, starts: the shared executor is resized, which waits for the pending tasks --
+        # and a worker dies during that wait.  The generator is drained after the second call.
+        pending_gen = True
+        calls[0]["n_jobs"] = rng.choice([3, 4]); calls[1]["n_jobs"] = rng.choice([5, 6])
+        calls[0]["gap_before"] = calls[1]["gap_before"] = 0.0
+        calls[0]["n"] = max(calls[0]["n"], 3)
+        calls[0]["sizes"] = (calls[0]["sizes"] + [10] * 3)[:calls[0]["n"]]; calls[0]["args"] = [0] * calls[0]["n"]
+        calls[0]["dur"] = [rng.choice([0.05, 0.2, 0.5]) for _ in range(calls[0]["n"])]
+        for call in calls[2:]:
+            call["n_jobs"] = rng.choice([3, 4, 5, 6])
+        kills = [] if rng.random() < 0.2 else [{"call": 1, "when": "during", "kind": rng.choice(["task", "label:running_task", "sleep", "any", "pread"]),
+                                               "nth": rng.choice([1, 1, 2, 3]), "delay": 0.0, "code": -9}]
     for c, call in enumerate(calls):
         if call["gap_before"] and rng.random() < 0.6:
             # few tasks on the respawned workers, one of which dies early in its first task
@@ -89,8 +112,11 @@ def gen_case(rng):
             call.update(n=m, sizes=call["sizes"][:m] + [10] * (m - len(call["sizes"][:m])), args=[0] * m, dur=([0.0] + call["dur"])[:m] + [0.0] * (m - len(([0.0] + call["dur"])[:m])))
             kills = [k for k in kills if k["call"] != c] + [{"call": c, "when": "during", "kind": rng.choice(["task", "label:running_task", "pread"]),
                                                             "nth": 1, "delay": 0.0, "code": -9}]
-    return {"n_jobs": n_jobs, "batch_size": rng.choice([1, 1, 2, "auto"]), "managed": rng.random() < 0.5, "calls": calls,
-            "pre_dispatch": rng.choice(["2*n_jobs", "2*n_jobs", "all", "n_jobs"]),
+    return {"n_jobs": n_jobs, "batch_size": rng.choice([1, 1, 2, "auto"]), "managed": rng.random() < 0.5 and not pending_gen, "calls": calls,
+            # (with a pending generator everything is dispatched up front: completion callbacks that still had to submit
+            # would dead-lock against the resize of the shared executor by the other Parallel object, kill or no kill --
+            # an interaction of two objects that none of the listed properties covers)
+            "pre_dispatch": rng.choice(["2*n_jobs", "2*n_jobs", "all", "n_jobs"]) if not pending_gen else "all", "pending_generator": pending_gen,
             "kills": kills, "strategy": dict(rng.choice(ds.STRATEGIES), **{"p_jump": 0.0}), "sched_seed": rng.randrange(1 << 31)}
 
 
@@ -291,6 +317,17 @@ def run_case(case):
             out["calls"].append(rec); out["cur"] = c
             if call.get("n_jobs") and not case["managed"]:
                 p = Parallel(n_jobs=call["n_jobs"], backend="loky", batch_size=case["batch_size"], pre_dispatch=case.get("pre_dispatch", "2*n_jobs"))
+            if case.get("pending_generator") and c == 0:
+                blobs = call.get("args") or [0] * call["n"]
+                pg = Parallel(n_jobs=call["n_jobs"], backend="loky", batch_size=case["batch_size"], pre_dispatch=case.get("pre_dispatch", "2*n_jobs"),
+                              return_as="generator")
+                try:
+                    out["pending"] = (rec, call, pg(delayed(work)(c, i, call["sizes"][i], call["dur"][i], b"a" * blobs[i]) for i in range(call["n"])))
+                except BaseException as e:  # noqa
+                    rec["outcome"] = type(e).__name__ if isinstance(e, BrokenProcessPool) else "OTHER:" + type(e).__name__
+                    rec["running"] = False; rec["t1"] = s.now
+                out["cur"] = None
+                continue
             try:
                 blobs = call.get("args") or [0] * call["n"]
                 r = p(delayed(work)(c, i, call["sizes"][i], call["dur"][i], b"a" * blobs[i]) for i in range(call["n"]))
@@ -309,6 +346,20 @@ def run_case(case):
             for k in case["kills"]:
                 if k["call"] == c and k["when"] == "after":
                     kill_idle(k)
+            if out.get("pending") and c == 1:
+                rec0, call0, g0 = out.pop("pending")
+                try:
+                    r0 = list(g0)
+                    ok0 = [(a, b, len(d)) for a, b, d in r0] == [(0, i, call0["sizes"][i]) for i in range(call0["n"])]
+                    rec0["outcome"] = "ok" if ok0 else "WRONG"
+                    if not ok0:
+                        rec0["got"] = [(a, b, len(d)) for a, b, d in r0][:10]
+                except BrokenProcessPool as e:
+                    rec0["outcome"] = type(e).__name__
+                except BaseException as e:  # noqa
+                    rec0["outcome"] = "OTHER:" + type(e).__name__; rec0["err"] = repr(e)[:200]
+                rec0["running"] = False; rec0["t1"] = s.now
+                del g0
         if case["managed"]:
             p.__exit__(None, None, None)
         out["done"] = True
@@ -358,6 +409,8 @@ def run_case(case):
                         break
                     kt = max(k["t"] for k in ks)
                     tot = sum(case["calls"][c["c"]]["dur"])
+                    if case.get("pending_generator") and c["c"] == 0:
+                        continue            # its error is only looked at when the generator is drained, after the second call
                     if c["t1"] - max(kt, c["t0"]) > 10.0 + tot:
                         verdict = V("late_detection", "call %d: error %.2fs after the kill" % (c["c"], c["t1"] - kt), kill_point=kill_point)
                         break
